@@ -41,3 +41,27 @@ func unwrapJSONNumber(input any) any {
 
 	return input
 }
+
+// unwrapJSONNumbers converts the json.Number values found in a default value
+// (possibly nested in lists or objects) into int64/float64, the dynamic types
+// the rest of the codebase expects.
+func unwrapJSONNumbers(input any) any {
+	switch typed := input.(type) {
+	case json.Number:
+		return unwrapJSONNumber(typed)
+	case []any:
+		unwrapped := make([]any, 0, len(typed))
+		for _, item := range typed {
+			unwrapped = append(unwrapped, unwrapJSONNumbers(item))
+		}
+		return unwrapped
+	case map[string]any:
+		unwrapped := make(map[string]any, len(typed))
+		for key, value := range typed {
+			unwrapped[key] = unwrapJSONNumbers(value)
+		}
+		return unwrapped
+	default:
+		return input
+	}
+}
